@@ -31,3 +31,27 @@ func (e Etc) ProcessTailExp(p TailExpProcessor) {
 func (e Etc) HWrite(w HWriter) {
 	w.Writef("...")
 }
+
+// A BEtc is a "..." expression surrounded by brackets.  As with a function call
+// in brackets, it is adjusted to exactly one value and so it is not a
+// TailExpNode: in `f((...))` only the first vararg (or nil) is passed.
+type BEtc struct {
+	Location
+}
+
+var _ ExpNode = BEtc{}
+
+// InBrackets turns the receiver into a BEtc.
+func (e Etc) InBrackets() BEtc {
+	return BEtc{Location: e.Location}
+}
+
+// ProcessExp uses the given ExpProcessor to process the receiver.
+func (e BEtc) ProcessExp(p ExpProcessor) {
+	p.ProcessEtcExp(Etc{Location: e.Location})
+}
+
+// HWrite prints a tree representation of the node.
+func (e BEtc) HWrite(w HWriter) {
+	w.Writef("(...)")
+}
